@@ -25,12 +25,20 @@ const shortLimit = 25 * time.Millisecond
 type rlog struct {
 	mu  sync.Mutex
 	log []entry
+	// run-away guard for loops that never reach the function (an unlimited retry around a policy that keeps rejecting):
+	// once the log is far longer than anything the model produces for this execution, overflow is called once
+	limit    int
+	overflow func()
 }
 
 func (l *rlog) add(f, t string) {
 	l.mu.Lock()
 	l.log = append(l.log, entry{f, t})
+	over := l.limit > 0 && len(l.log) == l.limit && l.overflow != nil
 	l.mu.Unlock()
+	if over {
+		l.overflow()
+	}
 }
 
 type infoStats interface {
@@ -343,6 +351,7 @@ func (rp *rprog) runExec(xi int, modelInv int, modelTimeouts int) (log []entry, 
 	var sawCancelEarly atomic.Bool
 	jl := judgeLast(rp.prog)
 	var stop atomic.Bool
+	l.limit, l.overflow = 4000+200*modelInv, func() { stop.Store(true); cancel() }
 	var timesMu sync.Mutex
 	var firstStart, lastAttemptStart time.Time
 	body := func(exec failsafe.Execution[int]) (int, error) {
